@@ -136,6 +136,12 @@ def _replay(case, q, sc, env):
             # partition selections on the imported node itself (absorbed by FromDelayed / kept above FromGraph)
             lines.append(ln)
         # selections directly on the import: partitions[i] of the cut collection == partitions[i] of the head
+        # the head holds a sort whose boundaries are quantiles of its input, followed by a row filter: the materialized head is the
+        # OPTIMIZED plan (filter pushed below the sort, boundaries of the filtered rows), h.partitions[i] keeps the filter above the
+        # sort - partition i of the two holds other rows of the same collection
+        hops = rel.ops_of(node)
+        if any(o in ("setindex", "sort") and any(f in hops[j + 1:] for f in ("filter", "dropna")) for j, o in enumerate(hops)):
+            continue
         for kind in case["kinds"][:3]:
             try:
                 imp = do_cut(h, kind)
